@@ -62,7 +62,7 @@ CFG = dict(
         "duplicate_key_refused": 100, "case_variant_key_refused": 100, "case_variant_lookup": 50,
         "object_member_removed": 100, "array_remove_first": 50, "array_remove_middle": 50, "array_remove_last": 50,
         "array_index_eq_size": 30, "array_index_beyond_size": 30, "absent_key_lookup": 100,
-        "deep_chain_ge_500": 10, "wide_tree_ge_1000_containers": 10, "print_buffer_grew_gt_256": 300, "text_tree_duplicate_keys": 100,
+        "deep_chain_ge_500": 10, "wide_tree_ge_1000_containers": 10, "duplicated_member_added_under_case_variant_key": 100, "print_buffer_grew_gt_256": 300, "text_tree_duplicate_keys": 100,
         "compare_duplicate_checked": 2000, "iterate_early_stop": 100,
         "sweep_numbers": 2 * 2872, "sweep_key_bytes": 2 * 255, "sweep_string_bytes": 2 * 255,
         "python_records_written": 1000,
